@@ -1,5 +1,6 @@
 import BindgenModel.Lemmas.Layout
 import BindgenModel.Lemmas.StructLayout
+import BindgenModel.Generated.LayoutConsts
 /-!
 # C02 — generated types match the C compiler's size, alignment and offsets
 
@@ -26,6 +27,15 @@ def C02_statement (consistent : CAgg → Prop) : Prop :=
     ∃ r l, emit o c = some r ∧ reprC r = some l ∧
       (∀ cl, c.layout = some cl → l.size = cl.size ∧ l.align = cl.align) ∧
       l.userOffsets = cOffsets 0 c.fields
+
+/-! ## the constants the models use are the constants of /repo's source (regenerated on every run) -/
+
+theorem C02_consts_maxGuaranteedAlign :
+    StructLayout.maxGuaranteedAlign = Generated.LayoutConsts.maxGuaranteedAlign := by decide
+theorem C02_consts_arrayLimit : Layout.arrayLimit = Generated.LayoutConsts.arrayLimit := by decide
+theorem C02_consts_knownSizes :
+    ∀ n, n ≤ 64 → (knownTypeForSize n).isSome = Generated.LayoutConsts.knownSizes.contains n := by decide
+theorem C02_consts_blobThreshold : Generated.LayoutConsts.blobSmallAlignThreshold = 4 := by decide
 
 /-! ## layer 1 (restated from `Lemmas/Layout.lean` so that the obligations are listed here) -/
 
@@ -72,6 +82,63 @@ theorem C02_fails_on_pad_inexact_int128 :
     padInexact {} witnessInt128 = true ∧
     ((emit {} witnessInt128).bind reprC).map (fun l => (l.size, l.align, l.userOffsets)) = some (48, 16, [(0, 0), (1, 32)]) := by
   decide
+
+/-! ## further excluded regions (packed / aligned mixes, bit-field units, `--explicit-padding`)
+
+Each region is a decidable predicate of `Model/LayoutRegions.lean` (the driver evaluates it, the
+harness mirrors it on the real aggregate); each lemma shows, on a concrete record that a C compiler
+produces, that the emitted aggregate's layout (`reprC ∘ emit`) differs from the C layout, or that
+rustc refuses the emitted type (`reprC = none`), or that `emit` panics (`emit = none`).  Every
+witness is replayed on the real toolchain by the check (`corpus/C02/*.h`). -/
+
+def summary (o : Opts) (c : CAgg) : Option (Option (Nat × Nat × List (Nat × Nat))) :=
+  (emit o c).map fun r => (reprC r).map fun l => (l.size, l.align, l.userOffsets)
+
+/-- `packed(8)` together with `align(8)`: rustc E0587 -/
+theorem C02_fails_on_packed_align_conflict :
+    (emit {} witnessPackedAlign).map packedAlignConflict = some true ∧ summary {} witnessPackedAlign = some none := by decide
+
+/-- a packed struct containing a `repr(align)` struct: rustc E0588 -/
+theorem C02_fails_on_packed_contains_aligned :
+    (emit {} witnessPackedContains).map packedContainsAligned = some true ∧ summary {} witnessPackedContains = some none := by decide
+
+/-- `packed` dropped in favour of `align(2)`: Rust alignment 16, C alignment 2 -/
+theorem C02_fails_on_packed_dropped :
+    (emit {} witnessPackedDropped).map (packedDropped witnessPackedDropped) = some true ∧
+    summary {} witnessPackedDropped = some (some (16, 16, [(0, 0)])) := by decide
+
+/-- `packed(4)` puts `b` at 4, C (packed + aligned(4)) has it at 1 -/
+theorem C02_fails_on_packedN_misplaces :
+    (emit {} witnessPackedN).map (packedNMisplaces witnessPackedN) = some true ∧
+    summary {} witnessPackedN = some (some (12, 4, [(0, 0), (1, 4)])) := by decide
+
+/-- a union's bit-field unit is as long as its last bit-field only: Rust size 1, C size 6 -/
+theorem C02_fails_on_union_unit_short :
+    unionUnitShort witnessUnionUnitShort = true ∧ summary {} witnessUnionUnitShort = some (some (1, 1, [])) := by decide
+
+/-- `--explicit-padding`: tail padded twice: Rust size 32, C size 24 -/
+theorem C02_fails_on_explicit_padding_double_tail :
+    (emit { forcePadding := true } witnessDoubleTail).map doubleTailPad = some true ∧
+    summary { forcePadding := true } witnessDoubleTail = some (some (32, 8, [(1, 8)])) ∧
+    summary {} witnessDoubleTail = some (some (24, 8, [(1, 8)])) :=
+  ⟨by decide, by decide, by decide⟩
+
+/-- `--explicit-padding` on a wrapper-form union: Rust size 12, C size 8 -/
+theorem C02_fails_on_explicit_padding_union_wrapper :
+    (emit { forcePadding := true } witnessUnionWrapper).map padBeforeUnionBlob = some true ∧
+    summary { forcePadding := true } witnessUnionWrapper = some (some (12, 4, [(0, 0), (1, 0), (2, 0)])) ∧
+    summary {} witnessUnionWrapper = some (some (8, 4, [(0, 0), (1, 0), (2, 0)])) :=
+  ⟨by decide, by decide, by decide⟩
+
+/-- `--explicit-padding`: `comp_layout.size - self.latest_offset` underflows (panic with overflow
+checks; a 2^64-ish padding array without) -/
+theorem C02_fails_on_tail_padding_underflow :
+    emit { forcePadding := true } witnessTailUnderflow = none ∧ (emit {} witnessTailUnderflow).isSome = true := by decide
+
+/-- `#pragma pack(2)` undetected: `b` at 8 in Rust, at 2 in C -/
+theorem C02_fails_on_unpacked_misaligned_member :
+    (emit {} witnessMisaligned).map (unpackedMisalignedMember witnessMisaligned) = some true ∧
+    summary {} witnessMisaligned = some (some (16, 8, [(0, 0), (1, 8)])) := by decide
 
 /-- the hypotheses of `C02_plain_struct` are satisfiable on a non-trivial record
 (`struct { char a; int b; short c; long d; }` with and without explicit padding) -/
